@@ -143,6 +143,10 @@ class Engine:
         self.path_log = []
         self.forced_template = {}
         self.forced_choices = {}
+        self.steps = 0
+        self.max_steps = 400_000
+        self.t_start = time.time()
+        self.wall_budget = 150.0  # seconds per harness; exceeding it is 'undecided', never a violation
 
     # ---- fresh symbols (deterministic names per path position) -------------------------------------
     def fresh(self, base, sort):
@@ -204,6 +208,8 @@ class Engine:
         if z3.is_false(cond):
             return False
         k = len(self.decisions)
+        if time.time() - self.t_start > self.wall_budget:
+            raise OutOfReach(f"{self.name}: wall-clock budget of {self.wall_budget:.0f}s exhausted")
         if k < len(self.prefix):
             d = self.prefix[k]
         else:
